@@ -144,6 +144,8 @@ func runC08(c *Ctx) {
 	checkRenameUpdatesMirror(c, "C08-R2")
 
 	// ---------- R4 ----------
+	checkIssuersPersistEveryAddress(c, "C08-R2")
+	checkDerivationPathLiterals(c, "C08-R3")
 	checkRowRewrites(c, "C08-R4")
 	c.Advisory("Manager.SetBirthday stores the in-memory birthday before writing it (outside the property's query list)")
 }
@@ -365,10 +367,14 @@ func checkRowRewrites(c *Ctx, rule string) {
 					ok = false
 					detail = fmt.Sprintf("%s re-persists an account row through %s with a zero/nil %s: the stored %s is dropped although the row being rewritten has one", fn.Name(), name, pn, pn)
 				}
-				if tn, f, _, okf := fieldOf(arg); okf && strings.HasSuffix(tn, "AccountRow") {
-					if !sameFieldRole(f, pn) {
-						ok = false
-						detail = fmt.Sprintf("%s passes row field %s for parameter %s of %s", fn.Name(), f, pn, name)
+				// every stored-row field that can flow into this slot (directly, or through a local that is conditionally
+				// replaced by a new value) is the field of the same role
+				for _, o := range (&Slicer{P: p, ThroughBinOp: true}).Origins(arg) {
+					if tn, f, _, okf := fieldOf(o); okf && strings.HasSuffix(tn, "AccountRow") {
+						if !sameFieldRole(f, pn) {
+							ok = false
+							detail = fmt.Sprintf("%s passes row field %s for parameter %s of %s: the stored %s is overwritten with the value of %s", fn.Name(), f, pn, name, pn, f)
+						}
 					}
 				}
 				if tn, f, _, okf := fieldOf(stripConv(arg)); okf && !strings.HasSuffix(tn, "AccountRow") && tn != "" {
